@@ -1,6 +1,7 @@
 mod batchrun;
 mod cgrdec;
 mod containers;
+mod covrun;
 mod ctrrun;
 mod paths;
 mod facts;
@@ -51,6 +52,8 @@ fn main() {
         ["trace", "oligopaths", ..] => paths::oligo_paths(arg(&a, 2), arg(&a, 3), &a[4], arg(&a, 5)),
         ["trace", "counter", ..] => ctrrun::free(arg(&a, 2), arg(&a, 3), &a[4], arg(&a, 5)),
         ["trace", "ctrstress", ..] => ctrrun::stress(arg(&a, 2), arg(&a, 3), &a[4], arg(&a, 5)),
+        ["trace", "coverage", ..] => covrun::trace(arg(&a, 2), arg(&a, 3), &a[4], arg(&a, 5), &a[6]),
+        ["trace", "idx", ..] => covrun::idx(arg(&a, 2), arg(&a, 3), &a[4]),
         ["replay", "counter", ..] => ctrrun::replay(&a[2], arg(&a, 3), arg(&a, 4), &a[5], arg(&a, 6), arg(&a, 7)),
         ["table", "revcomp", ..] => tables::revcomp(arg(&a, 2)),
         ["table", "posmap", ..] => tables::posmap(arg(&a, 2)),
